@@ -231,14 +231,19 @@ func genOp(r *emit.Rng, gauge bool) op {
 		switch r.Intn(10) {
 		case 0, 1:
 			vals := []float64{0, 1, -2.5, 7, 100.5, math.Inf(1), math.NaN(), 1e300, -0.0, 3}
+			if is386 {
+				// which NaN bit pattern an addition returns is platform-specific (amd64 propagates the operand's
+				// payload, 386 returns the canonical NaN); the model's is amd64's, and a CAS retry depends on the bits
+				vals[6] = -7.25
+			}
 			return op{kind: 0, v: vals[r.Intn(len(vals))]}
 		case 2, 3:
-			if r.Chance(1, 6) { // infinite and NaN amounts: the gauge holds the IEEE sum (Inf + -Inf = NaN), nothing saturates
+			if r.Chance(1, 6) && !is386 { // infinite and NaN amounts: the gauge holds the IEEE sum (Inf + -Inf = NaN), nothing saturates
 				return op{kind: 1, v: []float64{math.Inf(1), math.Inf(-1), math.NaN(), -1e300, 1e308}[r.Intn(5)]}
 			}
 			return op{kind: 1, v: grid[r.Intn(len(grid))]}
 		case 4:
-			if r.Chance(1, 6) {
+			if r.Chance(1, 6) && !is386 {
 				return op{kind: 2, v: []float64{math.Inf(1), math.Inf(-1), math.NaN(), -1e308}[r.Intn(4)]}
 			}
 			return op{kind: 2, v: grid[r.Intn(len(grid))]}
